@@ -326,6 +326,9 @@ def type_sites(ty, out):
     return out
 
 
+ENTRYPOINT_PRIMS = ('SELF', 'CONTRACT', 'EMIT', 'TRANSFER_TOKENS', 'SET_DELEGATE', 'IMPLICIT_ACCOUNT', 'ADDRESS', 'CREATE_CONTRACT', 'VIEW')
+
+
 def _show(code):
     try:
         from pytezos.michelson.format import micheline_to_michelson
@@ -629,7 +632,7 @@ def run(ctx):
     from harness import gen_interp, interp_run
     from harness.props.c01 import gen_env
     g = gen_interp.Gen(rng)
-    n_wide = 700 if quick else 25000
+    n_wide = 1100 if quick else 30000
     found = {}
 
     import signal
@@ -659,8 +662,13 @@ def run(ctx):
     for wi in range(n_wide):
         code, _st = g.program(rng.choice([3, 5, 8, 12, 16]))
         env = gen_env(rng)
-        plain = obs(code, env)
         text = json.dumps(code)
+        if any(f'"{k}"' in text for k in ENTRYPOINT_PRIMS):
+            # instructions whose annotations NAME something (an entrypoint, an event tag) or whose result carries the written type as data
+            # (the type of an emitted event): the property excludes entrypoint names; C13 / C01 cover them
+            ctx.count('wide-outcome', 'skipped:names-an-entrypoint-or-event')
+            continue
+        plain = obs(code, env)
         ctx.case({'stream': 'wide', 'code': code if gen_interp.code_size(code) < 10 else f'<{gen_interp.code_size(code)} instrs>', 'h': hash(text) & 0xffffffff},
                  nontrivial=any(k in text for k in ('"LAMBDA"', '"MAP"', '"ITER"', '"LOOP', '"IF', '"EMPTY_', '"NIL"', '"LEFT"', '"RIGHT"', '"NONE"')))
         ctx.count('wide-outcome', plain[0])
